@@ -1,7 +1,8 @@
 ---- MODULE PeerGrammarClientTrace ----
 (***************************************************************************)
 (* Trace validation for C11.  Lines (one real execution = reset ... closed)*)
-(*   frame  the raw server emitted variant v for RPC r; done[i] = number   *)
+(*   frame  the raw server emitted variant v (for V_* variants with the     *)
+(*          header value val) for RPC r; done[i] = number                  *)
 (*          of times RPC i has returned, code[i] = its status code         *)
 (*          (100 = still running), observed at synctest quiescence         *)
 (*   raw    a mutated byte stream was sent instead (no prediction)         *)
@@ -34,7 +35,9 @@ Applicable(v, r) == conn # "dead" /\ ~expired /\ ((r = 0 /\ v \in ConnV) \/ (r \
 Unpredictable == /\ st' = [r \in 1..2 |-> IF st[r] = "done" THEN "done" ELSE "unk"]
                  /\ UNCHANGED <<conn, code, ngc, msgs, prevGA, nrpc, expired, viol>>
 Step ==
-  CASE Ev.ev = "frame" -> /\ (IF Applicable(Ev.v, Ev.r) THEN Frame(Ev.v, Ev.r) ELSE UNCHANGED cvars)
+  CASE Ev.ev = "frame" -> /\ (IF Ev.v \in ValK
+                                THEN (IF conn # "dead" /\ ~expired /\ Ev.r \in Rpcs THEN ValFrame(Ev.v, Ev.val, Ev.r) ELSE UNCHANGED cvars)
+                                ELSE (IF Applicable(Ev.v, Ev.r) THEN Frame(Ev.v, Ev.r) ELSE UNCHANGED cvars))
                           /\ Stable(Ev) /\ Predicted(Ev)
     [] Ev.ev = "raw" -> Unpredictable /\ Stable(Ev)
     [] Ev.ev = "end" -> /\ (IF expired THEN UNCHANGED cvars ELSE Expire)
